@@ -9,7 +9,7 @@ TIERS = {"quick": (6, 2, 1, 1, 40, 12), "thorough": (8, 5, 3, 2, 1100, 16)}
 #   N = two nested composites (one representative mode per kind, arity <= 2), leaves S0/F1 (+ one B1 / flip / a timeout on the INNER composite)
 #   T = one composite level, root timeout set / set again / withdrawn while the tree is under way (ops set-timeout, reset-timeout)
 #   R = one composite level (family A's shapes and leaves), the root's finish callback re-uses the tree once: reset(); start(); from inside the notification
-LANES = {"quick": {"X": (6, 2, 1, 1, 0, 4), "N": (6, 4, 2, 2, 2, 4), "T": (7, 2, 1, 1, 0, 2), "R": (6, 1, 1, 1, 0, 4)},
+LANES = {"quick": {"X": (6, 2, 1, 1, 0, 4), "N": (6, 4, 2, 2, 2, 4), "T": (6, 2, 1, 1, 0, 3), "R": (6, 1, 1, 1, 0, 4)},
          "thorough": {"X": (8, 3, 1, 1, 0, 5), "N": (8, 5, 2, 2, 2, 5), "T": (8, 3, 1, 1, 0, 2), "R": (8, 2, 1, 1, 0, 4)}}
 ASAN = "detect_leaks=0:abort_on_error=0:quarantine_size_mb=32"
 def replay(exe, path):
@@ -81,19 +81,27 @@ def main(tier, args):
                    "destroy (delete the tree as it is, run the loop: no notification afterwards, no timer left, ASan); a pass = the body of one CommonLoop iteration on the real loop "
                    "under a virtual clock; oracles = structural invariants (finish callback once, no node started while its previous run is under way, nothing left under way below a finished/stopped "
                    "node, no stale notification after stop/reset by epoch tag on EVERY node, final hook once, reset-then-continue trace-equal to a fresh tree, "
-                   "a tree that can complete does complete, a timeout fires only while configured and after its full span) + one reference monitor per composite applying the documented step function to the "
+                   "a tree that can complete does complete, a timeout fires only while configured and after its full span, between an accepted pause() of the root and the next "
+                   "resume/stop/reset nothing starts, completes, blocks or runs below the root and no paused SleepAction is armed, block() is refused without effect after stop and "
+                   "every block notification has a cause) + one reference monitor per composite applying the documented step function to the "
                    "notifications actually delivered; ASan/UBSan. Side lanes, same BFS and oracles (lane: history depth, weight bound): %s. "
-                   "X = one composite level over S0/F1/B1 + at least one of the library's own leaves (SleepAction 50 ms both constructors, FunctionAction all four overloads; results checked) "
-                   "and late probe leaves that complete although paused/stopped meanwhile (finish() after stop must be refused, while paused it is accepted); "
+                   "X = one composite level (+ Repeat without setTimes) over S0/F1 + at least one of the library's own leaves (SleepAction 50 ms both constructors, FunctionAction all four overloads by constructor or setFunc; results checked), "
+                   "Fn! (a FunctionAction whose function stops the root from inside the start), late probe leaves whose finish()/block() arrives although paused/stopped meanwhile (LS1/LF1/LB1: refused after stop, "
+                   "accepted while paused) and BB1 (blocks again after the resume), extra op advance+7 (the clock overshoots the earliest timer by 7 ms); "
                    "N = two nested composites (Sequence, Parallel, IfThen, Loop.UntilSucc, LoopIf, Repeat(2), Wrapper.Invert, Composite; arity <= 2) over S0/F1 + one of "
-                   "B1 / fail-once flip / a 100 ms timeout on the inner composite; T = 8 representative shapes over S1 + up to two of N/F1/B1/SleepAction, with and without an "
-                   "initial root timeout, extra ops set-timeout (running or paused root, repeatable) and reset-timeout; R = lane A's programs of weight <= bound whose root "
-                   "finish callback re-uses the tree once from inside the notification (reset(); start())"
+                   "B1 / fail-once flip / a 100 ms timeout on the inner composite, on root and inner composite together, or on the first leaf; inner Sequence/Parallel also without any child; T = 8 representative shapes over S1 + up to two of N/F1/B1/SleepAction, with and without an "
+                   "initial root timeout, extra ops set-timeout (running or paused root, repeatable), reset-timeout and advance+7; R = lane A's programs of weight <= bound (+ Repeat without setTimes) whose root "
+                   "finish callback acts from inside the notification, once: re-uses the tree (reset(); start()) or, by variant bit, deletes it (then three loop passes: nothing may arrive; ASan). "
+                   "Zero-weight variants by program index: constructors / setMode on every kind that has it / setFunc / role aliases / LoopIf finish result, and re-configuration of the root "
+                   "(next mode, Repeat times 1<->2) at every reset, followed by monitors and fresh twin"
                    % (shape, maxw, depth, ", ".join("%s: %d, %d" % (l, v[0], v[1]) for l, v in sorted(LANES[tier].items()))),
               assumptions=["a loop pass is modelled as handleExpiredTimers()+handleNextFunc() of the real CommonLoop (what runLoop(kForever) does per wake-up); "
                            "runLoop(kOnce) is not used because its exit path drains up to 100 rounds of deferred tasks and would hide the interleavings",
-                           "control calls are applied to the root only, between passes (lane R: also reset+start from inside the root's finish notification); calls made on an ancestor from inside a "
-                           "descendant's onStart / a FunctionAction's function / a final hook are not explored; leaves complete from inside the loop (runNext), one pass before their notification is delivered",
+                           "control calls are applied to the root only, between passes; from inside callbacks only: reset+start or delete in the root's finish notification (lane R) and stop() of the root from a "
+                           "FunctionAction's function that then returns (lane X, Fn!). NOT demanded (switches, default off, both fail on the unchanged code - reading questions): C17_STOP_IN_ONSTART_DELAYED=1 "
+                           "(a leaf that stops the root in its onStart and completes later is left running below the stopped root: startThisAction() records the child only after start() returns) and "
+                           "C17_PAUSE_ORACLE_ANY=1 (no running descendant below ANY paused node: a block notification still queued when the tree is paused and resumed turns the root kPause over a running leaf); "
+                           "pause/resume/reset from inside a start and calls from final hooks are not explored; leaves complete from inside the loop (runNext), one pass before their notification is delivered",
                            "timeouts: WHEN a configured timeout may fire is modelled permissively (not before the full span since the run started or the timeout was set; pause/resume/block re-arming is "
                            "not documented and not compared); that an armed timeout does fire is not demanded; SleepAction durations are not compared, only that a sleeping leaf completes once its timer is due",
                            "ActionExecutor (priority queueing on top of whole trees) is not part of the closed system; what it does to a tree (pause/resume/stop/delete at any moment) is covered by the root ops and the terminal destroy",
